@@ -26,7 +26,8 @@ REQUIRED = ["trees_built", "trees_with_unpruned_leaf", "trees_fully_pruned", "pr
             "parse_eliminated_set_names_an_id_outside_the_candidate_list", "eliminated_sets_given_as_frozensets",
             "sets_with_a_vacuous_assertion_whose_candidate_is_in_its_own_eliminated_set",
             "parse_logs_with_missing_or_short_assertion_json",
-            "parse_winner_only_entry_with_an_empty_list_or_null_for_already_eliminated"]
+            "parse_winner_only_entry_with_an_empty_list_or_null_for_already_eliminated",
+            "parse_candidate_manifest_omits_a_candidate_of_the_contest"]
 ASSUMPTIONS = ["tag comparison is by assertion content (the module identifies an assertion by list.index, which maps exact "
                "duplicates to one index)"]
 N_CASES = {"quick": 128000, "thorough": 1024000}
@@ -335,6 +336,11 @@ def run_parse(case, rec, V):
         contest_id = "7"
     audit = {"Audit": {"seed": 1234}, "contests": contests}
     candfile = {"List": [{"Id": int(c), "Description": f"cand {c}"} for c in cands]}
+    if rng.random() < 0.2:
+        # the candidate manifest omits one of the contest's candidates (a qualified write-in added to the contest after
+        # the manifest was exported): the candidate is still a candidate - an alternative winner to be excluded
+        del candfile["List"][rng.randrange(1, len(cands))]
+        rec.count("parse_candidate_manifest_omits_a_candidate_of_the_contest")
     rec.case(case, nontrivial=True, sample={"assertion_json": ajson[:3], "contests_in_log": list(contests)})
     sink = io.StringIO()
     with contextlib.redirect_stdout(sink), warnings.catch_warnings():
